@@ -7,6 +7,7 @@ import DimodProofs.ReduceGiven
 import DimodProofs.HocOptions
 import DimodProofs.HocRecord
 import DimodProofs.PolyObject
+import DimodProofs.PolyRelabel
 import Generated.PolyState
 
 /-! # C15 — higher-order reduction is exact on consistent assignments; the penalty is never negative
@@ -1489,5 +1490,22 @@ example : (objectAfter .binary [([.str "a", .str "b", .str "c"], 1), ([.str "a"]
 theorem poly_object_relabel_term_value_partial (x : Label → Rat) (m : List (Label × Label)) (t : LTerm)
     (hinj : (t.map (mapLabel m)).Nodup) :
     termVal x (relabelTerm m t) = termVal (fun v => x (mapLabel m v)) t := relabelTerm_value x m t hinj
+
+/-- **`relabel_variables` relabels the whole polynomial** (in place, a mapping without label conflicts): when different terms stay
+    different and a changed term collides with no old term (`RelabelOK`: what fresh new labels and an injective mapping give) and
+    the mapping is injective on every term, the in-place loop over the snapshot (`self[newterm] = bias; del self[oldterm]`) leaves
+    exactly the relabelled entries (`relabelStep_perm`), so at every assignment `x` of the new labels the object has the energy the old
+    polynomial had at `x ∘ mapping` — and by the history theorems the reductions after it are exact for that polynomial -/
+theorem poly_object_relabel_energy (x : Label → Rat) (m : List (Label × Label)) (s : PolyState) (hs : TermsOK s)
+    (hok : RelabelOK m s) (hinj : ∀ e ∈ s, (e.1.map (mapLabel m)).Nodup) :
+    polyEnergy x (relabelStep m s) = polyEnergy (fun v => x (mapLabel m v)) s
+    ∧ (relabelStep m s).Perm (s.map (relabelEntry m)) :=
+  ⟨relabelStep_energy x m s hs hok hinj, relabelStep_perm m s hs hok⟩
+
+/-- the hypotheses of `poly_object_relabel_energy` are met by `abc − a/2 + c` with `a ↦ x, b ↦ 7` -/
+example : RelabelOK [(.str "a", .str "x"), (.str "b", .int 7)] [([.str "a", .str "b", .str "c"], 1), ([.str "a"], -1/2), ([.str "c"], 1)]
+    ∧ (∀ e ∈ ([([.str "a", .str "b", .str "c"], 1), ([.str "a"], -1/2), ([.str "c"], 1)] : PolyState),
+        (e.1.map (mapLabel [(.str "a", .str "x"), (.str "b", .int 7)])).Nodup) :=
+  ⟨⟨by decide +kernel, by decide +kernel⟩, by decide +kernel⟩
 
 end C15
